@@ -587,8 +587,10 @@ def rule_f(ctx):
     rule_source(ctx, 'C06.e')
     rule_small_sources(ctx, 'C06.e')
     # the observable-backed publishers of the Rx adapters: credit reaches one long-lived feeder (shared C20.g)
-    from .c20 import rule_g as c20g
+    from .c20 import rule_g as c20g, rule_i as c20i
     c20g(ctx)
+    # ... and nothing but request(n) puts credit into that queue's Subject (shared C20.i)
+    c20i(ctx)
 
 
 def rule_e(ctx):
@@ -609,4 +611,4 @@ def rule_d(ctx):
     rule_gate_scope(ctx)
 
 
-RULES = [('C06.a', rule_a), ('C06.b', rule_b), ('C06.c', rule_c), ('C06.a', rule_g), ('C06.d', rule_e), ('C06.e+C20.g', rule_f), ('C05.a+C05.b+C14.f', rule_d)]
+RULES = [('C06.a', rule_a), ('C06.b', rule_b), ('C06.c', rule_c), ('C06.a', rule_g), ('C06.d', rule_e), ('C06.e+C20.g+C20.i', rule_f), ('C05.a+C05.b+C14.f', rule_d)]
